@@ -2,6 +2,7 @@ import RosuModel.Lemmas.EvalCalcTaiko
 import RosuModel.Lemmas.PerfCalcTaiko
 import RosuModel.Lemmas.SkillPeaksRel
 import RosuModel.Lemmas.StrainSkeleton
+import RosuModel.Gen.PerfConsts
 
 /-!
 # C09 (third file) â€” star ratings: the `eval` formulas and the strain skeleton
@@ -22,6 +23,56 @@ Chain for C09: evaluator outputs `â‰¥ 0` and finite â‡’ strain values `â‰¥ 0` â‡
 
 namespace Rosu.C09c
 open Rosu.PerfCalc Rosu.Agg
+
+
+/-! ## the `eval` formulas the model was transcribed from are the ones in the source now -/
+
+open Rosu.Gen.PerfConsts in
+theorem eval_constants_extracted : unknownShapes = [] := by decide
+
+open Rosu.Gen.PerfConsts in
+/-- module constants and numeric literals (source order) of the code `Model/EvalCalc.lean` transcribes -/
+theorem osu_eval_literals_as_modelled : osuEvalLiterals = [
+  ("const DIFFICULTY_MULTIPLIER", ["0.0675"]),
+  ("const HD_FADE_IN_DURATION_MULTIPLIER", ["0.4"]),
+  ("const HD_FADE_OUT_DURATION_MULTIPLIER", ["0.3"]),
+  ("eval", ["0.0", "1.0", "0.8", "0.8", "0.9", "0.0", "0.7", "0.5", "0.0", "0.4", "0.0", "1.1", "1.1", "1.1", "1.0", "1.1", "0.00001", "0.027", "100_000.0", "2.0_f64", "1.0", "1.1", "4.0", "0.0"])
+] := by decide
+
+open Rosu.Gen.PerfConsts in
+/-- module constants and numeric literals (source order) of the code `Model/EvalCalc.lean` transcribes -/
+theorem taiko_eval_literals_as_modelled : taikoEvalLiterals = [
+  ("const DIFFICULTY_MULTIPLIER", ["0.084375"]),
+  ("const RHYTHM_SKILL_MULTIPLIER", ["0.65 * DIFFICULTY_MULTIPLIER"]),
+  ("const READING_SKILL_MULTIPLIER", ["0.100 * DIFFICULTY_MULTIPLIER"]),
+  ("const COLOR_SKILL_MULTIPLIER", ["0.375 * DIFFICULTY_MULTIPLIER"]),
+  ("const STAMINA_SKILL_MULTIPLIER", ["0.445 * DIFFICULTY_MULTIPLIER"]),
+  ("const SLIDER_MULTIPLIER", ["1.4 * 4.0 / 3.0"]),
+  ("const SLIDER_MULTIPLIER", ["0.8"]),
+  ("combined_difficulty_value", ["0.0", "1.5", "1.0", "2.0", "1.5", "0.0", "0.0", "1.0", "0.9"]),
+  ("rescale", ["0.0", "10.43", "8.0", "1.0"]),
+  ("eval", ["5.0", "1.0", "0.10", "1.0", "1000.0", "3700.0", "0.0", "0.15", "7.0", "1.0", "0.0", "0.05", "1.4"])
+] := by decide
+
+open Rosu.Gen.PerfConsts in
+/-- module constants and numeric literals (source order) of the code `Model/EvalCalc.lean` transcribes -/
+theorem catch_eval_literals_as_modelled : catchEvalLiterals = [
+  ("const DIFFICULTY_MULTIPLIER", ["4.59"]),
+  ("eval", [])
+] := by decide
+
+open Rosu.Gen.PerfConsts in
+/-- module constants and numeric literals (source order) of the code `Model/EvalCalc.lean` transcribes -/
+theorem mania_eval_literals_as_modelled : maniaEvalLiterals = [
+  ("const DIFFICULTY_MULTIPLIER", ["0.018"]),
+  ("difficulty", [])
+] := by decide
+
+open Rosu.Gen.PerfConsts in
+/-- module constants and numeric literals (source order) of the code `Model/EvalCalc.lean` transcribes -/
+theorem norm_literals_as_modelled : utilNormLiterals = [
+  ("norm", [])
+] := by decide
 
 /-! ## osu! -/
 
